@@ -8,6 +8,8 @@ from . import common
 from . import u_off
 
 P = ['C04', 'C14']
+# the offset-resolving arms of selector() and resource_handle are what a loaded TextSelector / AnnotationSelector reaches (C19: no panic)
+PL = P + ['C19']
 AS = 'src/annotationstore.rs'
 
 STUBS = r'''
@@ -126,7 +128,7 @@ MAPERR = ('R-closure-inline', r'(?s)self\.(get_mut|get)\(&(\w+)\)\.map_err\(\|er
 
 def build():
     u = u_off.build(name='u_selector', selector_variants=('TextSelector', 'AnnotationSelector', 'ResourceSelector'), extra_errors=('NoText',))
-    u.serves = ['C04', 'C14']
+    u.serves = ['C04', 'C14', 'C19']
     u.item('src/store.rs', 'enum', 'BuildItem', keep_derives=[])
     u.impl('src/selector.rs', 'impl Offset', [
         # R-inherent: `self.into()` is From<&Offset> for OffsetMode, emitted in u_off as the inherent OffsetMode::from
@@ -142,7 +144,7 @@ def build():
     get_mut_build = ('R-closure-inline', r'(?s)self\.get_mut\(&res_id\)\.map_err\(\|err\| \{.*?\}\)\?', '(match self.vx_get_resource_mut__build(&res_id) { Ok(vx_v) => vx_v, Err(vx_e) => { return Err(vx_build_error(vx_e)); } })')
     get_ann_build = ('R-closure-inline', r'(?s)self\.get\(&a_id\)\.map_err\(\|err\| \{.*?\}\)\?', '(match self.vx_get_annotation__build(&a_id) { Ok(vx_v) => vx_v, Err(vx_e) => { return Err(vx_build_error(vx_e)); } })')
     u.impl(AS, 'impl AnnotationStore', [
-        Fn('selector', emit_name='selector__text', props=P, ret='r',
+        Fn('selector', emit_name='selector__text', props=PL, ret='r',
            region=('let resource: &mut TextResource = self.get_mut(&res_id)', 'SelectorBuilder::AnnotationSelector(a_id, offset) => {',
                    "fn selector__text(&mut self, res_id: BuildItem<'_, TextResource>, offset: Offset) -> Result<Selector, StamError>", '@arm'),
            rewrites=[get_mut_build],
@@ -169,7 +171,7 @@ impl vstd::std_specs::convert::FromSpecImpl<TextSelection> for Offset {
         Fn('from', props=P, ret='r', ensures=[('simple', 'r.begin == Cursor::BeginAligned(textselection.begin) && r.end == Cursor::BeginAligned(textselection.end)')]),
     ])
     u.impl('src/selector.rs', 'impl Selector', [
-        Fn('resource_handle', props=P, ret='r',
+        Fn('resource_handle', props=PL, ret='r',
            ensures=[('of_text', 'match *self { Selector::TextSelector(res, _, _) => r == Some(res), Selector::AnnotationSelector(_, Some((res, _, _))) => r == Some(res), Selector::ResourceSelector(res) => r == Some(res), _ => r is None }')]),
     ])
     AH = f'{O}.ann_denoted(a_id).unwrap()'
@@ -184,7 +186,7 @@ impl vstd::std_specs::convert::FromSpecImpl<TextSelection> for Offset {
     RB = f'resolve_in({OFF}, {PAR}).0 as usize'
     RE = f'resolve_in({OFF}, {PAR}).1 as usize'
     u.impl(AS, 'impl AnnotationStore', [
-        Fn('selector', emit_name='selector__annotation', props=P, ret='r',
+        Fn('selector', emit_name='selector__annotation', props=PL, ret='r',
            region=('if let Some(offset) = offset {', 'SelectorBuilder::DataSetSelector(id) => {',
                    "fn selector__annotation(&mut self, a_id: BuildItem<'_, Annotation>, offset: Option<Offset>) -> Result<Selector, StamError>", '@arm'),
            rewrites=[get_ann_build,
